@@ -6,7 +6,9 @@ routine runs).  Integer inputs come from the z3 model of the integer path condit
 occur in input-only path atoms come from a (non-linearised) z3 query; everything else is drawn from a
 seeded generator.
 """
+import os
 import random
+import sys
 import threading
 import time
 from fractions import Fraction
@@ -30,12 +32,16 @@ def _check(s, hard_s=8.0):
     """s.check() with a hard wall-clock limit: z3's soft timeout is ignored inside some non-linear queries"""
     t = threading.Timer(hard_s, s.ctx.interrupt)
     t.start()
+    t0 = time.time()
     try:
-        return s.check()
+        r = s.check()
     except z3.Z3Exception:
-        return z3.unknown
+        r = z3.unknown
     finally:
         t.cancel()
+    if os.environ.get('VERIF_DEBUG_CONC'):
+        print(f'[concretize] check -> {r} in {time.time() - t0:.1f}s (limit {hard_s}s)', file=sys.stderr, flush=True)
+    return r
 
 
 def _z3poly(p, zv):
@@ -56,6 +62,13 @@ def _holds(a, env):
 
 NICE_VECTORS = {1: [(1,), (2,)], 2: [(3, 4), (4, 3), (1, 1)], 3: [(1, 2, 2), (2, 1, 2), (2, 2, 1), (2, 3, 6)],
                 4: [(1, 1, 1, 1), (2, 2, 2, 2), (1, 1, 1, 3), (4, 4, 7, 0)]}
+
+
+_SPENT = [0.0]      # seconds spent on instantiation in the current job (reset by the runner at the start of every job)
+
+
+def reset_budget():
+    _SPENT[0] = 0.0
 
 
 def _partial(p, env):
@@ -159,6 +172,8 @@ def goal_directed(eng, imodel, rng, seed, n=3, budget_s=24.0, max_vars=70, max_t
                 if time.time() - t_start > budget_s:
                     break
         r = _check(sol, 8.0)
+        if r == z3.unknown and k == 0 and len(V) > 16:
+            break               # the solver cannot handle the system at all: leave it to the plain path witnesses
         if r == z3.sat:
             m = sol.model()
             env = {}
@@ -226,9 +241,15 @@ def instantiate(eng, seed=0, n=4, lo=-3, hi=3, pin_zero=True, budget_s=30.0):
         except Exception:
             zero_forced = set()
     imodels = [icex, imodel] if icex else [imodel]
+    # a job that raises many candidates (a broken tree) must still terminate quickly: the budget shrinks with the time already spent
+    t_enter = time.time()
+    if _SPENT[0] > 90:
+        budget_s = min(budget_s, 8.0)
+    if _SPENT[0] > 30:
+        n = min(n, 2)
     # counterexample-guided instantiations first (models of path AND NOT failed VC), then plain path witnesses
     try:
-        for im in imodels:
+        for im in (imodels if _SPENT[0] <= 180 else []):
             for part in goal_directed(eng, im, rng, seed, n=3, budget_s=budget_s * 0.6 / len(imodels)):
                 env = dict(im)
                 for v in rvars:
@@ -280,7 +301,7 @@ def instantiate(eng, seed=0, n=4, lo=-3, hi=3, pin_zero=True, budget_s=30.0):
                 if _check(s) != z3.sat:
                     s.pop()
             # prefer witnesses in which constrained inputs do not vanish (a zero input is often an excluded degenerate case)
-            for v in order:
+            for v in order[:12]:
                 if time.time() - t_start > budget_s:
                     break
                 s.push()
@@ -305,6 +326,7 @@ def instantiate(eng, seed=0, n=4, lo=-3, hi=3, pin_zero=True, budget_s=30.0):
         envs.append(env)
         if len(envs) >= n:
             break
+    _SPENT[0] += time.time() - t_enter
     return envs
 
 
